@@ -1,6 +1,8 @@
-"""Pure-Python model of the NT4 surface used by /repo: one local instance, one value and one
-type per topic; set overwrites, setDefault writes only if absent, get returns the value or the
-entry's default (contract validated against the real ntcore by real/nt_validate.py)."""
+"""Pure-Python model of the NT4 surface used by /repo: one local instance, one value, one type and a
+property set per topic; set overwrites, setDefault writes only if absent, get returns the value or the
+entry's default; sequence values are copied when published (contract validated against the real ntcore
+by real/nt_validate.py).  The surface is wider than what /repo uses today so that a tree which starts
+using neighbouring APIs (sub-tables, topic properties) is still decided rather than rejected."""
 import wpilib as _w
 
 
@@ -8,6 +10,7 @@ class _Store:
     def __init__(self):
         self.values = {}
         self.types = {}
+        self.props = {}
         self.writes = []  # (key, value) in order, for harness inspection
 
 
@@ -17,20 +20,66 @@ STORE = _Store()
 def reset():
     STORE.values.clear()
     STORE.types.clear()
+    STORE.props.clear()
     del STORE.writes[:]
 
 
+def _copy(v):
+    if isinstance(v, (list, tuple)):
+        return list(v)
+    return v
+
+
 def _write(key, v):
+    v = _copy(v)
     STORE.values[key] = v
     STORE.writes.append((key, v))
 
 
+def _norm(k):
+    return k if k.startswith("/") else "/" + k
+
+
 class Topic:
     def __init__(self, key):
-        self.key = key
+        self.key = _norm(key)
 
     def getName(self):
         return self.key
+
+    def exists(self):
+        return self.key in STORE.values
+
+    def getTypeString(self):
+        t = STORE.types.get(self.key)
+        return t[0] if t else ""
+
+    def isPersistent(self):
+        return STORE.props.get(self.key, {}).get("persistent", False)
+
+    def setPersistent(self, b):
+        STORE.props.setdefault(self.key, {})["persistent"] = b
+
+    def isRetained(self):
+        return STORE.props.get(self.key, {}).get("retained", False)
+
+    def setRetained(self, b):
+        STORE.props.setdefault(self.key, {})["retained"] = b
+
+    def getProperty(self, name):
+        return STORE.props.get(self.key, {}).get(name)
+
+    def setProperty(self, name, v):
+        STORE.props.setdefault(self.key, {})[name] = v
+
+    def getProperties(self):
+        return dict(STORE.props.get(self.key, {}))
+
+    def genericPublish(self, typ, *a):
+        return _Pub(self.key)
+
+    def getGenericEntry(self, *a):
+        return _Entry(self.key, None)
 
 
 class _Entry:
@@ -39,25 +88,64 @@ class _Entry:
         self.default = default
 
     def get(self, *a):
+        if a and self.key not in STORE.values:
+            return a[0]
         return STORE.values.get(self.key, self.default)
 
-    def set(self, v):
+    def set(self, v, *a):
         _write(self.key, v)
 
     def setDefault(self, v):
         if self.key not in STORE.values:
             _write(self.key, v)
 
-    setValue = setBoolean = setString = setDouble = setInteger = set
-    getValue = get
+    def exists(self):
+        return self.key in STORE.values
+
+    def getTopic(self):
+        return Topic(self.key)
+
+    def getName(self):
+        return self.key
+
+    def unpublish(self):
+        pass
+
+    def close(self):
+        pass
+
+    def setPersistent(self):
+        STORE.props.setdefault(self.key, {})["persistent"] = True
+
+    def clearPersistent(self):
+        STORE.props.setdefault(self.key, {})["persistent"] = False
+
+    def isPersistent(self):
+        return STORE.props.get(self.key, {}).get("persistent", False)
+
+    setValue = setBoolean = setString = setDouble = setInteger = setFloat = setRaw = set
+    setBooleanArray = setDoubleArray = setIntegerArray = setStringArray = setFloatArray = set
+    setDefaultValue = setDefaultBoolean = setDefaultString = setDefaultDouble = setDefaultInteger = setDefault
+    getValue = getBoolean = getString = getDouble = getInteger = getFloat = getRaw = get
+    getBooleanArray = getDoubleArray = getIntegerArray = getStringArray = getFloatArray = get
 
 
 class _Pub:
     def __init__(self, key):
         self.key = key
 
-    def set(self, v):
+    def set(self, v, *a):
         _write(self.key, v)
+
+    def setDefault(self, v):
+        if self.key not in STORE.values:
+            _write(self.key, v)
+
+    def getTopic(self):
+        return Topic(self.key)
+
+    def close(self):
+        pass
 
 
 def _mk(tname):
@@ -65,6 +153,7 @@ def _mk(tname):
         TYPE = tname
 
         def __init__(self, topic, *a):
+            self.topic = topic
             self.key = topic.key
             self.extra = a
             STORE.types[self.key] = (tname,) + tuple(getattr(x, "__name__", str(x)) for x in a)
@@ -72,11 +161,22 @@ def _mk(tname):
         def getEntry(self, default, *a):
             return _Entry(self.key, default)
 
+        def getEntryEx(self, typestr, default, *a):
+            return _Entry(self.key, default)
+
         def publish(self, *a):
+            return _Pub(self.key)
+
+        def publishEx(self, *a):
             return _Pub(self.key)
 
         def subscribe(self, default, *a):
             return _Entry(self.key, default)
+
+        def __getattr__(self, n):
+            if n.startswith("__"):
+                raise AttributeError(n)
+            return getattr(self.topic, n)
 
     T.__name__ = T.__qualname__ = tname
     return T
@@ -85,41 +185,97 @@ def _mk(tname):
 BooleanTopic = _mk("BooleanTopic")
 IntegerTopic = _mk("IntegerTopic")
 DoubleTopic = _mk("DoubleTopic")
+FloatTopic = _mk("FloatTopic")
 StringTopic = _mk("StringTopic")
 RawTopic = _mk("RawTopic")
 BooleanArrayTopic = _mk("BooleanArrayTopic")
 IntegerArrayTopic = _mk("IntegerArrayTopic")
 DoubleArrayTopic = _mk("DoubleArrayTopic")
+FloatArrayTopic = _mk("FloatArrayTopic")
 StringArrayTopic = _mk("StringArrayTopic")
 StructTopic = _mk("StructTopic")
 StructArrayTopic = _mk("StructArrayTopic")
 
+_TYPED = dict(Boolean=BooleanTopic, Integer=IntegerTopic, Double=DoubleTopic, Float=FloatTopic, String=StringTopic, Raw=RawTopic,
+              BooleanArray=BooleanArrayTopic, IntegerArray=IntegerArrayTopic, DoubleArray=DoubleArrayTopic,
+              FloatArray=FloatArrayTopic, StringArray=StringArrayTopic)
 
-class NetworkTable:
-    def __init__(self, path):
-        self.path = path.rstrip("/")
 
-    def _k(self, k):
-        return f"{self.path}/{k}"
-
-    def getEntry(self, k):
-        return _Entry(self._k(k), None)
+class _TopicGetters:
+    def _key(self, k):
+        raise NotImplementedError
 
     def getTopic(self, k):
-        return Topic(self._k(k))
+        return Topic(self._key(k))
+
+    def getEntry(self, k):
+        return _Entry(self._key(k), None)
+
+    def getStructTopic(self, k, t):
+        return StructTopic(Topic(self._key(k)), t)
+
+    def getStructArrayTopic(self, k, t):
+        return StructArrayTopic(Topic(self._key(k)), t)
+
+
+for _n, _cls in _TYPED.items():
+    def _g(self, k, _cls=_cls):
+        return _cls(Topic(self._key(k)))
+
+    setattr(_TopicGetters, f"get{_n}Topic", _g)
+
+
+class NetworkTable(_TopicGetters):
+    PATH_SEPARATOR_CHAR = "/"
+
+    def __init__(self, path):
+        self.path = _norm(path).rstrip("/")
+
+    def _key(self, k):
+        return f"{self.path}/{k}"
+
+    def getPath(self):
+        return self.path
+
+    def getSubTable(self, k):
+        return NetworkTable(self._key(k))
+
+    def containsKey(self, k):
+        return self._key(k) in STORE.values
+
+    def getKeys(self, *a):
+        p = self.path + "/"
+        return [k[len(p):] for k in STORE.values if k.startswith(p) and "/" not in k[len(p):]]
 
     def putBoolean(self, k, v):
-        _write(self._k(k), v)
+        _write(self._key(k), v)
+        return True
 
-    putNumber = putString = putStringArray = putValue = putBoolean
+    putNumber = putString = putStringArray = putNumberArray = putBooleanArray = putRaw = putValue = putBoolean
+
+    def setDefaultBoolean(self, k, v):
+        if self._key(k) not in STORE.values:
+            _write(self._key(k), v)
+        return True
+
+    setDefaultNumber = setDefaultString = setDefaultValue = setDefaultStringArray = setDefaultNumberArray = setDefaultBoolean
 
     def getBoolean(self, k, d):
-        return STORE.values.get(self._k(k), d)
+        return STORE.values.get(self._key(k), d)
 
-    getNumber = getString = getStringArray = getValue = getBoolean
+    getNumber = getString = getStringArray = getNumberArray = getBooleanArray = getRaw = getValue = getBoolean
+
+    def setPersistent(self, k):
+        STORE.props.setdefault(self._key(k), {})["persistent"] = True
+
+    def clearPersistent(self, k):
+        STORE.props.setdefault(self._key(k), {})["persistent"] = False
+
+    def isPersistent(self, k):
+        return STORE.props.get(self._key(k), {}).get("persistent", False)
 
 
-class NetworkTableInstance:
+class NetworkTableInstance(_TopicGetters):
     _inst = None
 
     @classmethod
@@ -128,11 +284,17 @@ class NetworkTableInstance:
             cls._inst = cls()
         return cls._inst
 
-    def getTable(self, p):
-        return NetworkTable(p if p.startswith("/") else "/" + p)
+    def _key(self, k):
+        return _norm(k)
 
-    def getTopic(self, k):
-        return Topic(k)
+    def getTable(self, p):
+        return NetworkTable(p)
+
+    def flush(self):
+        pass
+
+    def flushLocal(self):
+        pass
 
 
 def __getattr__(name):
